@@ -1,8 +1,10 @@
 package c01
 
 import (
+	"encoding/json"
 	"fmt"
 	"os"
+	"os/exec"
 	"path/filepath"
 	"sort"
 	"strings"
@@ -98,8 +100,8 @@ func (prop) Judge(b core.Batch, recs []core.Rec, exits []core.Exit) []core.Resul
 				}
 			}
 			if g.QuietMs >= 500 && inc {
-				out = append(out, core.Result{K: k, Verdict: core.Violated, Sig: "C01|" + svc + "|membomb|" + frame,
-					What: fmt.Sprintf("resident memory kept growing past 3 GiB for %d ms without any client input (allocating in %s)", g.QuietMs, frame), Witness: map[string]interface{}{"guard": g, "stderr": e.Stderr}})
+				out = append(out, core.Result{K: -1, Verdict: core.Violated, Sig: "C01|" + svc + "|membomb|" + frame,
+					What: fmt.Sprintf("resident memory kept growing past 3 GiB for %d ms without any client input (allocating in %s)", g.QuietMs, frame), Witness: map[string]interface{}{"guard": g, "stderr": e.Stderr, "heap_top": heapTop(e), "last_input": lastInput(e)}})
 			} else {
 				out = append(out, core.Result{K: k, Verdict: core.Inconclusive, What: "memory guard tripped without a quiet growth history (" + svc + ")"})
 			}
@@ -107,7 +109,7 @@ func (prop) Judge(b core.Batch, recs []core.Rec, exits []core.Exit) []core.Resul
 			out = append(out, core.Result{K: k, Verdict: core.Inconclusive, What: "child watchdog fired (" + svc + ")"})
 		case e.Class != "" && e.Class != "killed":
 			out = append(out, core.Result{K: k, Verdict: core.Violated, Sig: "C01|" + svc + "|" + e.Class + "|" + e.Frame,
-				What: fmt.Sprintf("process died: %s in %s", e.Class, e.Frame), Witness: map[string]interface{}{"exit_code": e.Code, "signal": e.Signal, "stderr": clip(e.Stderr, 3000)}})
+				What: fmt.Sprintf("process died: %s in %s", e.Class, e.Frame), Witness: map[string]interface{}{"exit_code": e.Code, "signal": e.Signal, "stderr": clip(e.Stderr, 3000), "last_input": lastInput(e)}})
 		default:
 			out = append(out, core.Result{K: k, Verdict: core.Inconclusive, What: fmt.Sprintf("child ended abnormally without a Go fatal banner (code=%d signal=%s) (%s)", e.Code, e.Signal, svc)})
 		}
@@ -206,4 +208,28 @@ func (prop) Summarize(all []core.Result, nrec int) map[string]interface{} {
 	}
 	return map[string]interface{}{"events_observed": events, "bytes_sent": bytes, "connections": conns, "recovered_panics": rp,
 		"handlers_still_running_after_client_close": linger, "scenario_kinds": kinds}
+}
+
+// lastInput is the scenario the child had written to disk before it died.
+func lastInput(e core.Exit) interface{} {
+	b, err := os.ReadFile(filepath.Join(e.WorkDir, "last_input.json"))
+	if err != nil {
+		return nil
+	}
+	var v interface{}
+	json.Unmarshal(b, &v)
+	return v
+}
+
+// heapTop summarises the heap profile the child wrote when its memory guard tripped (in-use space by function).
+func heapTop(e core.Exit) string {
+	prof := filepath.Join(e.WorkDir, "heap.pprof")
+	if _, err := os.Stat(prof); err != nil {
+		return ""
+	}
+	out, err := exec.Command("go", "tool", "pprof", "-top", "-nodecount=12", "-sample_index=inuse_space", prof).CombinedOutput()
+	if err != nil {
+		return "pprof: " + err.Error()
+	}
+	return clip(string(out), 2500)
 }
